@@ -213,6 +213,13 @@ class Xml:
         self.used = set()
         self.attr_hook = None      # C18: adds foreign attributes to standard elements outside prototypes
         self.in_prototype = False
+        # lexical variant: the E57 namespace bound to a prefix instead of being the default namespace
+        self.std_prefix = lex.get("std_prefix")
+
+    def q(self, tag):
+        if self.std_prefix and ":" not in tag:
+            return self.std_prefix + ":" + tag
+        return tag
 
     def sep(self):
         l = self.lex
@@ -240,16 +247,19 @@ class Xml:
         return s
 
     def open(self, tag, at):
+        tag = self.q(tag)
         self.sep()
         self.out.append("<%s%s>" % (tag, self.attrs(at)))
         self.depth += 1
 
     def close(self, tag):
+        tag = self.q(tag)
         self.depth -= 1
         self.sep()
         self.out.append("</%s>" % tag)
 
     def leaf(self, tag, at, text):
+        tag = self.q(tag)
         self.sep()
         if text == "" and self.lex["empty"] == "selfclose":
             self.out.append("<%s%s/>" % (tag, self.attrs(at)))
@@ -378,7 +388,11 @@ def build_xml(scene, offsets, r, lex, hooks=None):
     if lex["decl"] != "full":
         x.used.add("xml-declaration:" + lex["decl"])
     x.out.append(decl)
-    root_at = [("type", "Structure"), ("xmlns", E57NS)] + [("xmlns:" + p, u) for p, u in scene["extensions"]]
+    if x.std_prefix and (hooks or any(p == x.std_prefix for p, _ in scene["extensions"])):
+        x.std_prefix = None        # the C18 insertions and an equally named extension prefix keep the default namespace
+    if x.std_prefix:
+        x.used.add("standard-namespace-prefixed")
+    root_at = [("type", "Structure"), (("xmlns:" + x.std_prefix) if x.std_prefix else "xmlns", E57NS)] + [("xmlns:" + p, u) for p, u in scene["extensions"]]
     if hooks and hooks.get("root_attrs"):
         root_at += hooks["root_attrs"]
     if lex["ws"] == "none" and decl:
@@ -512,7 +526,10 @@ def build_xml(scene, offsets, r, lex, hooks=None):
         x.close("images2D")
     H("root:last")
     x.close("e57Root")
-    x.out.append("\n")
+    if lex.get("final_newline", True):
+        x.out.append("\n")
+    else:
+        x.used.add("no-final-newline")
     return "".join(x.out), x.used
 
 
@@ -529,7 +546,8 @@ def gen_layout(r, exotic=True):
         "tail": r.choice(["free", "exact", "exact", "minus4", "plus4"]),
         "lex": {"ws": r.choice(["newline", "indent", "none", "comments"]), "attr_order": r.choice(["fixed", "shuffled"]), "quote": r.choice(["double", "single"]), "empty": r.choice(["explicit", "selfclose", "cdata"]),
                 "string": r.choice(["cdata", "escaped", "numeric", "mixed"]), "float": r.choice(["repr", "exp"]), "decl": r.choice(["full", "full", "short", "standalone", "none"]), "omit_optional": r.random() < 0.6,
-                "element_order": r.choice(["fixed", "shuffled"]), "trailing_spaces": r.choice([0, 0, 3, 500]), "codecs": r.random() < 0.3},
+                "element_order": r.choice(["fixed", "shuffled"]), "trailing_spaces": r.choice([0, 0, 3, 500, 1500]), "codecs": r.random() < 0.3,
+                "std_prefix": r.choice([None, None, None, None, None, "e57", "a", "std"]), "final_newline": r.random() < 0.7},
     }
 
 
